@@ -220,6 +220,16 @@ def step (st : St) (line : String) : St × String :=
   | "sel" :: r :: c :: args =>
     match nats? [r, c] with
     | some [r, c] =>
+      -- a moltype outside the four spellings is refused by `_check_select_parameters`
+      let badMol := args.any (fun w => w == "m=dna" || w == "m=Protein")
+      let args := args.filter (fun w => !(w == "m=dna" || w == "m=Protein"))
+      if badMol then
+        match getColl st c, args.foldlM (critArg st) ({} : Crit) with
+        | some _, some _ => match checkSelectParameters false with
+          | .error e => (st, "err " ++ errName e)
+          | .ok _ => bad
+        | _, _ => bad
+      else
       match getColl st c, args.foldlM (critArg st) ({} : Crit) with
       | some (o, x), some crit =>
         let (x', res) := x.select crit
@@ -232,6 +242,14 @@ def step (st : St) (line : String) : St × String :=
           | _ => (newObj st r y, "ok")
       | _, _ => bad
     | _ => bad
+  | ["plarg", h] =>
+    match unhex h with
+    | some chars =>
+      match parsePicklistArg (String.ofList chars) with
+      | .ok (file, col, ct, ex) =>
+        (st, s!"ok {ct.str} {if ex then "exc" else "inc"} {hex col.toList} {hex file.toList}")
+      | .error e => (st, "err " ++ errName e)
+    | none => bad
   | ["sigs", c] =>
     match nat? c with
     | some c => match getColl st c with
